@@ -556,53 +556,31 @@ func c09CheckCardinality(w *World, r *Report) {
 	sort.Strings(dn)
 	r.Check(strings.Join(dn, ",") == "deviate-add,deviate-delete,deviate-not-supported,deviate-replace", "R09.7", "NodeType.IsDeviateNode", token.NoPos, strings.Join(dn, ","), "IsDeviateNode covers {"+strings.Join(dn, ",")+"}")
 
-	// the three tests inside the switch over the table + the invalid-substatement loop
-	startF, endF := w.Field("parse", "Cardinality", "Start"), w.Field("parse", "Cardinality", "End")
-	var missing, tooMany, invalid int
+	// the table loop as a decision: for a cell (Start, End) and a count, an error exit is taken
+	// within the iteration exactly when a required statement is missing or an at-most-one
+	// statement occurs twice
+	missingWhy, tooManyWhy := c09CardinalityDecision(w)
+	var invalid int
 	ast.Inspect(fd.Body, func(n ast.Node) bool {
-		switch x := n.(type) {
-		case *ast.CaseClause:
-			for _, e := range x.List {
-				conj := flattenAnd(e)
-				var startV, endV int64 = -1, -1
-				var cmpOp token.Token
-				var cmpK int64 = -1
-				for _, c := range conj {
-					be, ok := ast.Unparen(c).(*ast.BinaryExpr)
-					if !ok {
-						continue
-					}
-					if f := fieldOfSel(p, be.X); f == startF && be.Op == token.EQL {
-						startV, _ = ConstInt(p, be.Y)
-					} else if f == endF && be.Op == token.EQL {
-						endV, _ = ConstInt(p, be.Y)
-					} else if _, isIdx := ast.Unparen(be.X).(*ast.IndexExpr); isIdx {
-						cmpOp = be.Op
-						cmpK, _ = ConstInt(p, be.Y)
-					}
-				}
-				errRet := len(returnsIn(x)) == 1
-				if startV == '1' && cmpOp == token.LSS && cmpK == 1 && errRet {
-					missing++
-				}
-				if endV == '1' && cmpOp == token.GTR && cmpK == 1 && errRet {
-					tooMany++
-				}
-			}
-		case *ast.IfStmt:
+		if x, ok := n.(*ast.IfStmt); ok {
 			// `_, ok := n.card[k]; k != unknown && k != datadef && !ok`
 			if x.Init != nil && len(returnsIn(x.Body)) == 1 {
-				for _, c := range flattenAnd(x.Cond) {
-					if u, ok := ast.Unparen(c).(*ast.UnaryExpr); ok && u.Op == token.NOT {
-						invalid++
+				hasNot := false
+				ast.Inspect(x.Cond, func(y ast.Node) bool {
+					if u, ok := y.(*ast.UnaryExpr); ok && u.Op == token.NOT {
+						hasNot = true
 					}
+					return true
+				})
+				if hasNot {
+					invalid++
 				}
 			}
 		}
 		return true
 	})
-	r.Check(missing >= 2, "R09.7", "checkCardinality required-missing test", fd.Pos(), fmt.Sprintf("%d arms (1..1 and 1..n)", missing), "a required (min 1) substatement that is absent is no longer rejected for both 1..1 and 1..n cells")
-	r.Check(tooMany >= 1, "R09.7", "checkCardinality at-most-one test", fd.Pos(), "End=='1' && count>1 ⇒ error", "a second occurrence of an at-most-one substatement is no longer rejected")
+	r.Check(missingWhy == "", "R09.7", "checkCardinality required-missing test", fd.Pos(), "Start=='1' && count<1 ⇒ error (1..1 and 1..n)", "a required (min 1) substatement that is absent is no longer rejected for both 1..1 and 1..n cells: "+missingWhy)
+	r.Check(tooManyWhy == "", "R09.7", "checkCardinality at-most-one test", fd.Pos(), "End=='1' && count>1 ⇒ error", "a second occurrence of an at-most-one substatement is no longer rejected: "+tooManyWhy)
 	r.Check(invalid >= 1, "R09.7", "checkCardinality unknown-substatement test", fd.Pos(), "child type not in the row ⇒ error", "a substatement that has no cell in the parent's row is no longer rejected")
 
 	// check() calls checkArgument and checkCardinality, and checkModule/checkRevisionOrder
@@ -1072,4 +1050,94 @@ func c09RevisionChain(w *World, r *Report) {
 	if !checked {
 		panic(undecided{"checkRevisionOrder: loop-carried revision date not found"})
 	}
+}
+
+// c09CardinalityDecision evaluates the loop of checkCardinality that walks the
+// substatement table as a decision over (Start, End, count).
+func c09CardinalityDecision(w *World) (missing, tooMany string) {
+	f := w.SSAFunc(w.Method("parse", "node", "checkCardinality"))
+	if f == nil {
+		return "checkCardinality not found", "checkCardinality not found"
+	}
+	sym := NewSym(w)
+	fieldOfAtom := func(a *pcAtom) string {
+		bo, ok := a.v.(*ssa.BinOp)
+		if !ok || a.subj == "" {
+			return ""
+		}
+		for _, side := range []ssa.Value{bo.X, bo.Y} {
+			if n := loadedFieldName(side); n == "Start" || n == "End" {
+				return n
+			}
+			if ex, ok := side.(*ssa.Lookup); ok && isIntegerType(ex.Type()) {
+				return "count"
+			}
+			if ex, ok := side.(*ssa.Extract); ok {
+				if l, ok := ex.Tuple.(*ssa.Lookup); ok && ex.Index == 0 && isIntegerType(ex.Type()) {
+					_ = l
+					return "count"
+				}
+			}
+		}
+		return ""
+	}
+	for _, l := range ssaLoops(f) {
+		errCond := pcZ
+		body := l.body()
+		for _, b := range f.Blocks {
+			ret, ok := b.Instrs[len(b.Instrs)-1].(*ssa.Return)
+			if !ok || len(ret.Results) != 1 || isNilConst(ret.Results[0]) {
+				continue
+			}
+			if !(body[b] || l.Header.Dominates(b) && reachesLatchFree(b, l)) {
+				continue
+			}
+			errCond = pcOrF(errCond, sym.PathCond(l.Header, b, nil))
+		}
+		isTable := false
+		for _, a := range errCond.atoms() {
+			if n := fieldOfAtom(a); n == "Start" || n == "End" {
+				isTable = true
+			}
+		}
+		if !isTable {
+			continue
+		}
+		for _, start := range []int64{'0', '1'} {
+			for _, end := range []int64{'1', 'n'} {
+				for _, count := range []int64{0, 1, 2, 5} {
+					got, ok, und := pcEvalUnder(errCond, func(a *pcAtom) (bool, bool) {
+						switch fieldOfAtom(a) {
+						case "Start":
+							return a.set.contains(start), true
+						case "End":
+							return a.set.contains(end), true
+						case "count":
+							return a.set.contains(count), true
+						}
+						if ex, ok := a.v.(*ssa.Extract); ok && ex.Index == 0 {
+							if _, isNext := ex.Tuple.(*ssa.Next); isNext {
+								return true, true // another table cell to look at
+							}
+						}
+						return false, false
+					})
+					if !ok {
+						return "depends on " + und, "depends on " + und
+					}
+					want := (start == '1' && count == 0) || (end == '1' && count > 1)
+					if got != want {
+						msg := fmt.Sprintf("cell %c..%c with %d occurrence(s): error=%v", rune(start), rune(end), count, got)
+						if count == 0 {
+							missing = msg
+						} else {
+							tooMany = msg
+						}
+					}
+				}
+			}
+		}
+		return missing, tooMany
+	}
+	return "no loop over the substatement table raises an error", "no loop over the substatement table raises an error"
 }
